@@ -385,6 +385,7 @@ func c01Specs() []leafSpec {
 	}
 	for _, big := range []string{"18446744073709551615", "18446744073709551616", "18446744073709551617", "18446744073709551619", "9223372036854775808", "10000000000000000000", "36893488147419103232", "99999999999999999999999999"} {
 		specs = append(specs, leafSpec{"minLength " + big, []gen.Rule{{Name: "minLength", Val: lit(big)}}, "string", gen.Q("yyy"), []string{gen.Q(""), gen.Q("abc"), gen.Q("a")}})
+		specs = append(specs, leafSpec{"maxLength " + big, []gen.Rule{{Name: "maxLength", Val: lit(big)}}, "string", gen.Q("yyy"), []string{gen.Q(""), gen.Q("abc"), gen.Q("a"), gen.Q(strings.Repeat("é€", 40))}})
 	}
 	for _, ps := range gen.Patterns {
 		var vals []string
